@@ -974,7 +974,10 @@ pub fn tls_lazy_prog(s: &mut Src, max_threads: usize, max_ops: usize, atomics: b
         };
         threads[t].push(op);
     }
-    let join = s.chance(2, 3);
+    // loom drops the lazy statics when the model closure returns: a spawned thread that uses one
+    // must be joined (otherwise loom's documented "access during shutdown" panic is possible)
+    let child_lazy = threads[1..].iter().any(|ops| ops.iter().any(|o| matches!(o, Op::LazyGet { .. } | Op::LazyCellRead { .. })));
+    let join = s.chance(2, 3) || child_lazy;
     let late = s.chance(1, 2);
     // spawns: before main's ops, or interleaved
     let body = std::mem::take(&mut threads[0]);
